@@ -152,6 +152,7 @@ def _setup(ex, case):
         if ok and item[0] == "U" and item[1] == 1 and item[2] == "delete":
             ex.requested.discard(item[3])
             ex.local_created.discard(item[3])
+            ex.excluded.discard(item[3])        # an explicit un-request concerns that object; a new file of the same name is new
         return ok
     ex.apply = apply
 
